@@ -4,7 +4,7 @@
    the grammar model, so they cannot be stated here; they are tied to the implementation by
    replays (corpus/C20) and known()/probes in tools/props/c20.py.  What can be shown in the
    model is why the printer's line structure and the [wf] hypothesis are needed. *)
-From Coq Require Import List String Bool.
+From Coq Require Import List String Ascii Bool.
 From GZ Require Import C20.Model C20.Check.
 Import ListNotations.
 Open Scope string_scope.
@@ -147,3 +147,76 @@ Example seed5_pinned_tree_passes :
   prop_ok (seed5_case (map (fun t => if is KRaw t then set_nl true t else t) (print (seed5_api (Some "`json:""a""`"))))
                       (seed5_api (Some "`json:""a""`")) [(8, "// c")]) = true.
 Proof. vm_compute. reflexivity. Qed.
+
+(* ---- the other seeded changes, as the per-program check sees them ---- *)
+
+Definition one_route (doc : option atdoc) (req resp : option body) : api :=
+  [ SService None "s" false [ Item doc "h" (Route "get" (Path [PSeg false (PId "a") []] false) req resp) ] ].
+Definition plain_case (src out : api) : case :=
+  mkCase None None true (print src) [] [] (Some src) OOk OOk (print out) [] (Some out) true true true true false [].
+
+(* seeded change C20-1 (BodyExpr.Format walks "[", "]", "*" in a loop that leaves at the first
+   missing token): a request body that is a pointer to Req is written as (Req) -- the text parses, is a fixed point, and describes
+   another request type *)
+Definition seed1_api (star : bool) : api := one_route None (Some (Some (Body false star "Req"))) None.
+Theorem seed1_pointer_body_refuted :
+  agrees (plain_case (seed1_api true) (seed1_api false)) = true /\
+  prop_ok (plain_case (seed1_api true) (seed1_api false)) = false /\
+  prop_ok (plain_case (seed1_api true) (seed1_api true)) = true.
+Proof. vm_compute. repeat split; reflexivity. Qed.
+
+(* seeded change C20-3 (IsZeroString deletes the white space of the literal before comparing): a
+   @doc " " is deleted like a @doc "" -- for the model a blank string is not an empty one *)
+Definition seed3_api : api := one_route (Some (DocLit """ """)) None None.
+Theorem seed3_blank_string_deleted_refuted :
+  norm seed3_api = seed3_api /\
+  agrees (plain_case seed3_api (one_route None None None)) = true /\
+  prop_ok (plain_case seed3_api (one_route None None None)) = false /\
+  prop_ok (plain_case seed3_api seed3_api) = true.
+Proof. vm_compute. repeat split; reflexivity. Qed.
+
+(* seeded changes C20-4 and C20-7 (a filter behind the tabwriter trims blanks in front of the line
+   breaks inside a literal; a literal @server value retagged PATH loses the escaping of its tab): the
+   text of a string literal comes out changed -- same kinds, same lines, another description *)
+Definition tab_str : string := """user" ++ String "009"%char "api""".
+Definition seed7_api (v : string) : api :=
+  [ SService (Some [("summary", SVStr v)]) "s" false [ Item None "h" (Route "get" (Path [PSeg false (PId "a") []] false) None None) ] ].
+Theorem seed7_literal_rewritten_refuted :
+  wf (seed7_api tab_str) = true /\
+  agrees (plain_case (seed7_api tab_str) (seed7_api """user api""")) = true /\
+  prop_ok (plain_case (seed7_api tab_str) (seed7_api """user api""")) = false /\
+  prop_ok (plain_case (seed7_api tab_str) (seed7_api tab_str)) = true.
+Proof. vm_compute. repeat split; reflexivity. Qed.
+
+(* seeded change C20-6 (a deleted info block after a single-line import is not looked through): the
+   blank lines of the first pass are not those of the second; tokens, lines and description are
+   right, only the byte comparison of the two passes fails *)
+Definition seed6_api : api := [ SImport """a.api"""; SInfo [] ].
+Theorem seed6_second_pass_differs_refuted :
+  let c idem := mkCase None None true (print seed6_api) [] [] (Some seed6_api) OOk OOk (print (norm seed6_api)) []
+                       (Some (norm seed6_api)) idem true true true false [] in
+  agrees (c false) = true /\ prop_ok (c false) = false /\ prop_ok (c true) = true.
+Proof. vm_compute. repeat split; reflexivity. Qed.
+
+(* seeded change C20-8 (parseTypeExprList returns a nil slice for an empty group, which its caller
+   takes for an error that nobody recorded): for the valid source "type () type Foo {}" the parser
+   returns neither a description nor an error and format.Source dereferences nil.  The model parser
+   accepts the text and the model formatter deletes the empty group; what the changed tree does
+   disagrees with the model (no description) and fails the property (a crash) *)
+Definition seed8_toks : list token :=
+  [ tI "type"; tP KLParen "("; tP KRParen ")"; tIn "type"; tI "Foo"; tP KLBrace "{"; tP KRBrace "}" ].
+Definition seed8_api : api := [ STypes []; SType ("Foo", false, DStruct []) ].
+Theorem seed8_empty_type_group_refuted :
+  parse seed8_toks = Some seed8_api /\ wf seed8_api = true /\
+  norm seed8_api = [ SType ("Foo", false, DStruct []) ] /\
+  fmt seed8_toks = Some (print [ SType ("Foo", false, DStruct []) ]) /\
+  let c := mkCase None None true seed8_toks [] [] None OErr OCrash [] [] None false false true true false [] in
+  agrees c = false /\ prop_ok c = false.
+Proof. vm_compute. repeat split; reflexivity. Qed.
+
+(* ... and what the unchanged tree does with it passes *)
+Example seed8_pinned_tree_passes :
+  let out := [ SType ("Foo", false, DStruct []) ] in
+  let c := mkCase None None true seed8_toks [] [] (Some seed8_api) OOk OOk (print out) [] (Some out) true true true true false [] in
+  agrees c = true /\ prop_ok c = true.
+Proof. vm_compute. split; reflexivity. Qed.
